@@ -46,7 +46,7 @@ def run_bounded(prop, tier='quick'):
     import subprocess
     cmd = [os.path.join(VERIF, 'bin', 'rx'), 'bounded', prop]
     env = dict(os.environ, VERIF_REPO=core.REPO)
-    env.setdefault('RX_BUDGET', '20000' if tier == 'thorough' else '200')
+    env.setdefault('RX_BUDGET', '50000' if tier == 'thorough' else '200')
     t = time.time()
     try:
         p = subprocess.run(cmd, capture_output=True, text=True, env=env, timeout=1800)
@@ -70,7 +70,7 @@ def run_bounded(prop, tier='quick'):
     return r
 
 
-BOUNDED_RULE = ('part A: deterministic hand-built family of inputs in rx/src/bounded*.rs; part B: RX_BUDGET (quick 200 / thorough 20000) structured inputs from a PRNG seeded by VERIF_SEED (small dyadic coefficients/values so every expected number is exact in f64; '
+BOUNDED_RULE = ('part A: deterministic hand-built family of inputs in rx/src/bounded*.rs; part B: RX_BUDGET (quick 200 / thorough 50000) structured inputs from a PRNG seeded by VERIF_SEED (small dyadic coefficients/values so every expected number is exact in f64; '
                 'every representation shape named by the property); each case runs the REAL compiled ommx code and compares with an independent '
                 'executable form of the contract; distinct = distinct (input) tuples')
 
